@@ -528,16 +528,27 @@ async fn main() {
     out.push(run_fixed("directed-new-reply-channel", 1, &[Request(1, vec![5], 0), Request(2, vec![5, 6], 0), Request(2, vec![], 1), Unlock(1, 5), Unlock(2, 6), Unlock(2, 5)]).await);
     out.push(run_fixed("directed-dead-channel", 2, &[Request(1, vec![5], 0), Request(2, vec![5, 6, 7], 0), Drop(2, 0), Request(3, vec![5, 6], 0), Unlock(1, 5), Request(2, vec![7], 0), Request(2, vec![7], 1), Unlock(3, 6), Unlock(3, 5), Unlock(2, 7)]).await);
     out.push(run_fixed("directed-rotation", 1, &[Request(1, vec![1, 2, 3], 0), Request(2, vec![1, 2, 3], 0), Request(3, vec![3, 2, 1], 0), Unlock(1, 3), Unlock(2, 3), Unlock(3, 1), Unlock(1, 2), Unlock(2, 2), Unlock(3, 2), Unlock(1, 1), Unlock(2, 1), Unlock(3, 3)]).await);
-    // K3: starvation. limit 2; 1 waits for room 5; 2 and 3 keep re-requesting the room they are synchronising (6 and 5),
-    // 6 is always released before 5: every release comes from the holder, 1 keeps its channel and is never served
+    // former K3 (starvation, fixed by 11e9468): limit 2; 1 waits for room 5; the holders of rooms 6 and 5 release them in
+    // turn (6 first) and ask for them again at once.  Played online (whoever holds releases): before the fix connection 1
+    // was never served; now it must be, and the overtaking bound of the oracle must hold
     {
+        let mut sim = Sim::new(2);
+        let mut book = Book::default();
         let mut tr = vec![Request(3, vec![5], 0), Request(2, vec![6], 0), Request(1, vec![5], 0), Request(2, vec![6], 0), Request(3, vec![5], 0)];
-        for _ in 0..11 { tr.extend([Unlock(2, 6), Request(2, vec![6], 0), Unlock(3, 5), Request(3, vec![5], 0)]); }
-        out.push(run_fixed("directed-K3-starvation", 2, &tr).await);
-        // the same pattern, short: the waiter is demoted but the bound is not exceeded
-        let mut tr = vec![Request(3, vec![5], 0), Request(2, vec![6], 0), Request(1, vec![5], 0), Request(2, vec![6], 0), Request(3, vec![5], 0)];
-        tr.extend([Unlock(2, 6), Unlock(3, 5), Unlock(3, 5), Unlock(2, 6), Unlock(1, 5)]);
-        out.push(run_fixed("directed-K3-demoted-then-served", 2, &tr).await);
+        let mut gss = vec![];
+        for m in tr.clone().iter() { book.msg(m); let g = sim.apply(m).await; book.grants(&g); gss.push(g); }
+        for _ in 0..12 {
+            for room in [6u64, 5u64] {
+                if let Some(&(c, _)) = book.holders.iter().find(|h| h.1 == room) {
+                    for m in [Unlock(c, room), Request(c, vec![room], 0)] { book.msg(&m); let g = sim.apply(&m).await; book.grants(&g); gss.push(g); tr.push(m); }
+                }
+            }
+        }
+        out.push(mk_case("directed-fixedK3-starvation-pattern", 2, &tr, &gss, &book));
+        // the static schedule of the Coq witness C20_former_starvation_schedule_holds
+        out.push(run_fixed("directed-fixedK3-schedule", 2, &[Request(3, vec![5], 0), Request(2, vec![6], 0), Request(1, vec![5], 0), Request(2, vec![6], 0), Request(3, vec![5], 0),
+            Unlock(2, 6), Request(2, vec![6], 0), Unlock(3, 5), Request(3, vec![5], 0), Unlock(2, 6), Request(2, vec![6], 0), Unlock(1, 5), Request(1, vec![5], 0),
+            Unlock(2, 6), Unlock(3, 5), Unlock(2, 6), Unlock(1, 5)]).await);
     }
     out.push(run_fixed("directed-release-not-held", 2, &[Unlock(1, 5), Request(1, vec![5], 0), Unlock(2, 6), Unlock(1, 5), Unlock(1, 5), Request(2, vec![5], 0)]).await);
 
